@@ -10,6 +10,7 @@ from sa import dispatch as D
 from sa.model import AnalysisError, NOFOLD, dotted
 
 REC_CALLS = ('rec', 'join_rec', 'rec_with_force_parens_around')
+NEVER = 10 ** 6      # own precedence of a handler (branch) that never parenthesises its output
 
 # expression class -> operator kind (classes are looked up in loki.expression.operations)
 KIND_CLASS = {
@@ -202,6 +203,11 @@ class MapperFacts:
                 for c in calls:
                     handle_call(c, branch)
         walk_stmts(body, 'main')
+        # a branch that returns text without any parenthesize(_if_needed) call never parenthesises itself
+        if kind not in self.own:
+            self.own[kind] = NEVER
+        if kind == 'Product' and 'Neg.operand' in self.slots and 'Neg' not in self.own:
+            self.own['Neg'] = NEVER
         # operator spelling (string constants adjacent to the recursion)
         consts = [n.value for n in ast.walk(f.node) if isinstance(n, ast.Constant) and isinstance(n.value, str)
                   and not (n.value.startswith('\n') or len(n.value) > 40)]
@@ -234,6 +240,8 @@ class MapperFacts:
             raise AnalysisError(f'{self.mcls.name}: no own precedence extracted for {ckind}')
         if own == 'always':
             return True, 'child handler always parenthesises'
+        if own == NEVER:
+            return bool(bases_force(self, slot, ckind)), 'child handler never parenthesises its own output'
         if slot.prec > own:
             return True, f'slot prec {slot.prec} > child prec {own}'
         ccls = {'Neg': 'Product'}.get(ckind, KIND_CLASS.get(ckind, ckind))
@@ -241,6 +249,12 @@ class MapperFacts:
         if bases & slot.force and not bases & slot.noforce:
             return True, f'{ccls} in force_parens_around'
         return False, f'slot prec {slot.prec} <= child prec {own}, not forced'
+
+
+def bases_force(mf, slot, ckind):
+    ccls = {'Neg': 'Product'}.get(ckind, KIND_CLASS.get(ckind, ckind))
+    bases = CLASS_BASES.get(ccls, {ccls})
+    return bases & slot.force and not bases & slot.noforce
 
 
 # isinstance closure for the classes used in force lists (loki class -> pymbolic bases it also is)
